@@ -260,7 +260,7 @@ class MaskCombinator(Generic[R], GenerativeFunction[Mask[R]]):
             final_weight,
             Mask.build(retdiff, check_diff),
             Update(
-                inner_chm.mask(post_check),
+                inner_chm.mask(pre_check),
             ),
         )
 
